@@ -51,8 +51,13 @@ func genAction(r *gen.R) string {
 	case k < 11:
 		return act("resource", e(r.Pick([]string{"x.y", "svc.a", "bad..rid", "a?q=1", "*"})))
 	case k < 16:
-		if r.Bool() {
+		switch r.Intn(5) {
+		case 0, 1:
 			return act("error", "R", e(r.Pick(reqCodes)), e(r.Pick(reqMsgs)))
+		case 2:
+			return act("error", "W", e(r.Pick(reqCodes)), e(r.Pick(reqMsgs)))
+		case 3:
+			return act("error", "U")
 		}
 		return act("error", "G", e(r.Pick(reqMsgs)))
 	case k < 19:
@@ -98,7 +103,7 @@ func genAction(r *gen.R) string {
 		if r.Bool() {
 			p = jv(r)
 		}
-		return act("custom", e(r.Pick([]string{"foo", "bar", "change", "delete", "a.b", "", "patch", "x*"})), p)
+		return act("custom", e(r.Pick([]string{"foo", "bar", "change", "delete", "a.b", "", "patch", "x*", "user joined", "tab\tbed", "q?", "ok-name", "foo"})), p)
 	case k < 78:
 		return act("reaccess")
 	case k < 81:
@@ -112,7 +117,11 @@ func genAction(r *gen.R) string {
 	case k < 90:
 		return act("header", e(r.Pick([]string{"X-A", "Set-Cookie"})), e(r.Pick([]string{"v1", "v2"})))
 	case k < 97:
-		switch r.Intn(4) {
+		switch r.Intn(6) {
+		case 4:
+			return act("panic", "W", e(r.Pick(reqCodes)), e(r.Pick(reqMsgs)))
+		case 5:
+			return act("panic", "U")
 		case 0:
 			return act("panic", "R", e(r.Pick(reqCodes)), e(r.Pick(reqMsgs)))
 		case 1:
@@ -151,11 +160,14 @@ func (reqDom) Gen(r *gen.R, tier string, emit func(string)) {
 	if tier == "thorough" {
 		n = 80000
 	}
-	pats := []string{"a", "a.$x", "a.$x.b", "m.>", "a.*", "$x.$y", "a.b.c"}
+	pats := []string{"a", "a.$x", "a.$x.b", "m.>", "a.*", "$x.$y", "a.b.c", "", "a.$x"}
 	for i := 0; i < n; i++ {
 		pat := r.Pick(pats)
 		rname := "svc." + exactName(r, pat)
-		if r.Chance(1, 8) {
+		if pat == "" {
+			rname = "svc"
+		}
+		if r.Chance(1, 8) && pat != "" {
 			rname = "svc." + nearName(r, pat)
 		}
 		if r.Chance(1, 30) {
@@ -215,7 +227,7 @@ func (reqDom) Gen(r *gen.R, tier string, emit func(string)) {
 		if r.Chance(1, 10) {
 			nact = 0
 		}
-		args := []string{"req", subj, pk, r.Pick([]string{"cid1", "c.x", ""}), wire.Bool(r.Bool()), params, token,
+		args := []string{"req", subj, pk, r.Pick([]string{"cid1", "c.x", "", "cid1", "c d", "cid2"}), wire.Bool(r.Bool()), params, token,
 			r.Pick([]string{"", "q=1&b=2"}), pat, kinds, pickSet([]string{"m", "*", "set"}), pickSet([]string{"m", "*"}),
 			strconv.Itoa(r.Intn(3)), apply, strconv.Itoa(r.Intn(3))}
 		for j := 0; j < nact; j++ {
@@ -298,9 +310,14 @@ func runScript(r *res.Request, acts []string) {
 		case "resource":
 			r.Resource(dd(f[1]))
 		case "error":
-			if f[1] == "R" {
+			switch f[1] {
+			case "R":
 				r.Error(&res.Error{Code: dd(f[2]), Message: dd(f[3])})
-			} else {
+			case "W":
+				r.Error(fmt.Errorf("wrap: %w", &res.Error{Code: dd(f[2]), Message: dd(f[3])}))
+			case "U":
+				r.Error(&res.Error{Code: "custom.code", Message: "Oops", Data: make(chan int)})
+			default:
 				r.Error(errors.New(dd(f[2])))
 			}
 		case "notFound":
@@ -379,6 +396,10 @@ func runScript(r *res.Request, acts []string) {
 			}
 		case "panic":
 			switch f[1] {
+			case "W":
+				panic(fmt.Errorf("wrap: %w", &res.Error{Code: dd(f[2]), Message: dd(f[3])}))
+			case "U":
+				panic(&res.Error{Code: "custom.code", Message: "Oops", Data: make(chan int)})
 			case "R":
 				panic(&res.Error{Code: dd(f[2]), Message: dd(f[3])})
 			case "G":
